@@ -222,6 +222,6 @@ def check_query(t, scope=None, route='query-string'):
         if rows != exp_rows and exp_rows:
             return {'kind': 'rows-differ', 'text': text, 'rows': rows, 'want_rows': exp_rows}
         return {'skip': 'decomposed into %d parameter(s), each a subexpression' % len(vals)}
-    if rows == exp_rows and exp_rows:
-        return {'skip': 'parameters differ from the source text but the rows are right (constant folding)'}
+    if rows == exp_rows and (exp_rows or any(v == want and type(v) is type(want) for v in vals.values())):
+        return {'skip': 'parameters differ from the source text (constant folding / piecewise) but the rows and a parameter are right'}
     return {'kind': 'parameter-value-differs', 'text': text, 'params': {k: repr(v) for k, v in vals.items()}, 'want': repr(want), 'rows': rows}
